@@ -9,7 +9,7 @@ import os
 import string
 
 from ..common import Check
-from ..ctxtree import Top, TreeDesign, gen_tree, interp, leaf_conds
+from ..ctxtree import Top, TreeDesign, Watchdog, gen_tree, interp, leaf_conds
 from ..lockstep import Case, lockstep
 
 META = {
@@ -130,13 +130,11 @@ def gen_spec(rng, small: bool = False) -> dict:
     fsigs: list = []
     tsigs: list = []
     recs = []
-    nerr = 0
     for i in range(nrec):
         r = rng.random()
         is_assert = r < 0.1
         is_err = (not is_assert) and r < 0.2
         level = 40 if is_assert else (rng.choice(ERR_LEVELS) if is_err else rng.choice(LEVELS))
-        nerr += is_assert or is_err
         fmt, kinds = gen_fmt(rng, 3)
         while not fmt_valid(fmt, kinds):
             fmt, kinds = gen_fmt(rng, 3)
@@ -410,8 +408,9 @@ class _Built:
                     self.first = False
                 else:
                     self.sim.reset()
-                self.sim.run()
-        except BaseException as e:  # noqa: BLE001 - the failure of the simulation is the observation
+                with Watchdog(20):
+                    self.sim.run()
+        except Exception as e:  # noqa: BLE001 - the failure of the simulation is the observation
             exc = e
             self.broken = True
         finally:
@@ -581,6 +580,16 @@ def nontrivial(case: Case, out: list[str]) -> bool:
     return multi and hasfmt and silenced
 
 
+def load_corpus() -> list[Case]:
+    from ..common import CORPUS
+
+    out = []
+    for f in sorted((CORPUS / "C34").glob("*.json")):
+        b = json.loads(f.read_text())
+        out.append(Case(b["cfg"], b["ops"], b["desc"], "corpus"))
+    return out
+
+
 def run(ctx: Check):
     ctx.rule = (
         "cases = (generated design: 1-6 log statements with levels 5-50 (ERROR-level ones and assertions fire rarely), "
@@ -596,7 +605,7 @@ def run(ctx: Check):
         "table computed with Python's own format(); the independent monitor uses str.format on the whole format string"
     )
     ctx.proof_stage()
-    cases = gen_cases(ctx)
+    cases = load_corpus() + gen_cases(ctx)
     for c in cases:
         ctx.count("records_total", c.desc["nrecs"])
     lockstep(ctx, "hwlogging", "C34", cases, impl, monitor, more_cases, nontrivial, procs=1 if ctx.quick else None)
